@@ -35,6 +35,11 @@ pub struct Stats {
     model_replacements: u64,
     ref_chunk_checks: u64,
     remainder_flushes: u64,
+    single_steps: u64,
+    single_refills: u64,
+    single_flushes: u64,
+    single_out_of_data: u64,
+    single_out_of_remainders: u64,
     bad: Vec<(String, String)>,
 }
 impl Stats {
@@ -47,8 +52,16 @@ impl Stats {
         self.model_replacements += o.model_replacements;
         self.ref_chunk_checks += o.ref_chunk_checks;
         self.remainder_flushes += o.remainder_flushes;
-        if self.bad.len() < 200 {
-            self.bad.extend(o.bad);
+        self.single_steps += o.single_steps;
+        self.single_refills += o.single_refills;
+        self.single_flushes += o.single_flushes;
+        self.single_out_of_data += o.single_out_of_data;
+        self.single_out_of_remainders += o.single_out_of_remainders;
+        // keep at most 3 witnesses per identity so that one noisy identity cannot crowd out another
+        for b in o.bad {
+            if self.bad.iter().filter(|x| x.0 == b.0).count() < 3 {
+                self.bad.push(b);
+            }
         }
     }
 }
@@ -134,6 +147,110 @@ macro_rules! chain_impl {
                 } else {
                     c.into_binary().map_err(|e| match e { CoderError::Frontend(_) => "into_binary refused (not whole / head not word aligned)".to_string(), CoderError::Backend(_) => "backend".into() })
                 }
+            }
+
+            /// Single-step induction over arbitrary head values (uses the verification hook
+            /// `verif_from_raw_parts`): for the state (compressed stack, remainders stack, compressed
+            /// head `h`, remainders head `r`) and letter `l`,
+            ///  (A) decode(Part l) then encode of the decoded symbol restores the state bit for bit, the
+            ///      decoded symbol is what the reference says (quantile = low P bits of the head, or of
+            ///      the top word when the head holds fewer than P bits), a failing decode leaves the state
+            ///      untouched and can only happen on an empty compressed stack;
+            ///  (B) encode(l's middle interval) then decode(Part l) returns that symbol and restores the
+            ///      state; a failing encode leaves the state untouched and only happens when a refill is
+            ///      needed and the remainders stack is empty;
+            ///  both steps re-establish the documented invariant of the remainders head.
+            pub fn single_step(h: $W, r: $S, comp: &[$W], rem: &[$W], l: Letter, st: &mut Stats) {
+                let lo: u128 = 1u128 << (SBITS - WBITS - $P);
+                let hi: u128 = 1u128 << (SBITS - $P);
+                assert!(h != 0 && (r as u128) >= lo && (r as u128) < hi, "HARNESS: state outside the documented invariant");
+                let mk = || CC::verif_from_raw_parts(comp.to_vec(), rem.to_vec(), core::num::NonZero::new(h).unwrap(), r);
+                let start = (comp.to_vec(), rem.to_vec(), h, r);
+                let ctx = |what: &str| format!("{NAME}: compressed {:x?} remainders {:x?} heads (compressed {:#x}, remainders {:#x}) letter {:?}: {what}", comp, rem, h, r, l);
+                let inv = |c: &CC| { let (_, _, _, r2) = c.clone().verif_into_raw_parts(); (r2 as u128) >= lo && (r2 as u128) < hi };
+                // (A)
+                st.single_steps += 1;
+                let mut c = mk();
+                let needs_word = $P == WBITS || (h as u128) < (1u128 << $P);
+                match dec(&mut c, l) {
+                    Err(()) => {
+                        st.single_out_of_data += 1;
+                        if !(needs_word && comp.is_empty()) {
+                            st.bad.push(("ChainCoder::decode_symbol (single step) | out of compressed data reported although data is available".into(), ctx("")));
+                        } else if c.verif_into_raw_parts() != start {
+                            st.bad.push(("ChainCoder::decode_symbol (single step) | a failing decode modifies the coder".into(), ctx("")));
+                        }
+                    }
+                    Ok(k) => {
+                        let src: u128 = if needs_word { match comp.last() { Some(&w) => w as u128, None => { st.bad.push(("ChainCoder::decode_symbol (single step) | symbol decoded from an empty compressed stack".into(), ctx(""))); return; } } } else { h as u128 };
+                        let q = (src % (1u128 << $P)) as u64;
+                        let expect = if q < l.c { 0u8 } else if q < l.c + l.p { 1 } else { 2 };
+                        if k != expect {
+                            st.bad.push(("ChainCoder::decode_symbol (single step) | decoded symbol is not what the model assigns to the next chunk".into(), ctx(&format!("decoded {k}, chunk {q} means {expect}"))));
+                        }
+                        if !inv(&c) {
+                            st.bad.push(("ChainCoder::decode_symbol (single step) | remainders head leaves its documented range".into(), ctx("")));
+                        }
+                        { let (_, rem2, _, _) = c.clone().verif_into_raw_parts(); if rem2.len() > rem.len() { st.single_flushes += 1; } }
+                        match enc(&mut c, l, k) {
+                            Err(e) => st.bad.push(("ChainCoder (single step) | re-encoding the symbol just decoded fails".into(), ctx(&e))),
+                            Ok(()) => {
+                                let got = c.verif_into_raw_parts();
+                                if got != start {
+                                    st.bad.push(("ChainCoder (single step) | decode then encode does not restore the coder".into(), ctx(&format!("got {:x?}", got))));
+                                }
+                            }
+                        }
+                    }
+                }
+                // (B)
+                st.single_steps += 1;
+                let mut c = mk();
+                let needs_refill = (r as u128) < ((l.p as u128) << (SBITS - WBITS - $P));
+                match enc(&mut c, l, 1) {
+                    Err(e) => {
+                        st.single_out_of_remainders += 1;
+                        if !(needs_refill && rem.is_empty()) {
+                            st.bad.push(("ChainCoder::encode_symbol (single step) | encoding fails although no refill is needed or remainders are available".into(), ctx(&e)));
+                        } else if c.verif_into_raw_parts() != start {
+                            st.bad.push(("ChainCoder::encode_symbol (single step) | a failing encode modifies the coder".into(), ctx("")));
+                        }
+                    }
+                    Ok(()) => {
+                        if needs_refill { st.single_refills += 1; }
+                        if !inv(&c) {
+                            st.bad.push(("ChainCoder::encode_symbol (single step) | remainders head leaves its documented range".into(), ctx("")));
+                        }
+                        match dec(&mut c, l) {
+                            Err(()) => st.bad.push(("ChainCoder (single step) | decoding the symbol just encoded runs out of data".into(), ctx(""))),
+                            Ok(k) => {
+                                let got = c.verif_into_raw_parts();
+                                if k != 1 {
+                                    st.bad.push(("ChainCoder (single step) | encode then decode returns a different symbol".into(), ctx(&format!("decoded {k}"))));
+                                } else if got != start {
+                                    st.bad.push(("ChainCoder (single step) | encode then decode does not restore the coder".into(), ctx(&format!("got {:x?}", got))));
+                                }
+                            }
+                        }
+                    }
+                }
+            }
+
+            /// the sweep: `heads` x `rems` x letters x compressed stacks x remainders stacks
+            pub fn single_step_sweep(report: &Report, total: &mut Stats, comp_heads: &[$W], rem_heads: Vec<$S>, letters: &[Letter], comps: &[Vec<$W>], rems: &[Vec<$W>], label: &str) {
+                let t = std::time::Instant::now();
+                let st = rem_heads.par_iter().map(|&r| {
+                    let mut st = Stats::default();
+                    for &h in comp_heads { for &l in letters { for comp in comps { for rem in rems {
+                        single_step(h, r, comp, rem, l, &mut st);
+                    }}}
+                        if st.bad.len() > 20 { break; }
+                    }
+                    st
+                }).reduce(Stats::default, |mut a, b| { a.merge(b); a });
+                report.section(json!({"single_step_sweep": NAME, "heads": label, "compressed_heads": comp_heads.len(), "remainders_heads": rem_heads.len(), "letters": letters.len(),
+                    "compressed_stacks": comps.len(), "remainders_stacks": rems.len(), "steps": st.single_steps, "refills": st.single_refills, "flushes": st.single_flushes, "wall_s": t.elapsed().as_secs_f64()}));
+                total.merge(st);
             }
 
             /// C13 for one (data, models): decode, then the three continuations.
@@ -463,6 +580,11 @@ fn finish(report: &Report, total: Stats, c14: bool) {
         report.count("decode_calls", total.steps);
         report.count("continuations_restored", total.continuations);
         report.count("decodes_that_flushed_the_remainders_head", total.remainder_flushes);
+        report.count("single_steps_from_arbitrary_heads", total.single_steps);
+        report.count("single_step_refills", total.single_refills);
+        report.count("single_step_flushes", total.single_flushes);
+        report.count("single_step_out_of_compressed_data", total.single_out_of_data);
+        report.count("single_step_out_of_remainders", total.single_out_of_remainders);
     }
     for (i, d) in total.bad {
         report.violation(Violation { identity: i, detail: d, case: json!({"kind": "none"}) });
@@ -473,7 +595,8 @@ pub fn run(report: &Report) {
     let q = report.tier == Tier::Quick;
     report.bound("every word string of the listed lengths x every model sequence of the listed length; from_binary and (last word != 0) from_compressed; three continuations each; 8 precision schedules P1->P2->P1");
     report.assume("models are 3-part partitions around each letter of the alphabet at the coder's precision");
-    for n in ["ran_out_of_compressed_data", "continuations_restored", "decodes_that_flushed_the_remainders_head"] {
+    for n in ["ran_out_of_compressed_data", "continuations_restored", "decodes_that_flushed_the_remainders_head", "single_steps_from_arbitrary_heads",
+        "single_step_refills", "single_step_flushes", "single_step_out_of_compressed_data", "single_step_out_of_remainders"] {
         report.require(n);
     }
     let all8: Vec<u8> = (0..=255u8).collect();
@@ -538,7 +661,55 @@ pub fn run(report: &Report) {
     sched!(sched_16_32_12_16, datas16, 12, 16);
     sched!(sched_16_32_16_8, datas16, 16, 8);
     report.section(json!({"precision_schedules_wall_s": t.elapsed().as_secs_f64()}));
+    single_step_part(report, &mut total, q);
     finish(report, total, false);
+}
+
+/// boundary values of the valid remainders-head range [lo, hi): both ends, every power of two +-2,
+/// and the refill thresholds p * 2^(S-W-P) +-1 of the letters.
+fn boundary_heads(lo: u128, hi: u128, shift: u32, letters: &[Letter], width: u128) -> Vec<u128> {
+    let mut v: Vec<u128> = vec![];
+    for d in 0..width { v.push(lo + d); v.push(hi - 1 - d); }
+    let mut k = lo;
+    while k < hi { for d in 0..=4u128 { v.push(k + d); v.push(k.saturating_sub(d)); } v.push(k + k / 2); v.push(k + k / 3); k <<= 1; }
+    for l in letters { let t = (l.p as u128) << shift; for d in 0..=2u128 { v.push(t + d); v.push(t.saturating_sub(d)); } }
+    v.retain(|&x| x >= lo && x < hi);
+    v.sort(); v.dedup();
+    v
+}
+
+/// Single-step induction from arbitrary heads (hook `verif_from_raw_parts`): on (u8,u16) ALL valid
+/// remainders heads x ALL compressed heads; on wider types the boundary heads.
+fn single_step_part(report: &Report, total: &mut Stats, q: bool) {
+    let heads8: Vec<u8> = (1..=255u8).collect();
+    let comps8: Vec<Vec<u8>> = if q { vec![vec![], vec![0x00], vec![0xa7], vec![0x3c, 0xff]] } else {
+        let mut v: Vec<Vec<u8>> = vec![vec![]]; v.extend((0..=255u8).map(|w| vec![0x3c, w])); v };
+    let rems8: Vec<Vec<u8>> = vec![vec![], vec![0x5a], vec![0x11, 0xff]];
+    c8_16_2::single_step_sweep(report, total, &heads8, (64u16..16384).collect(), &all_pairs(2), &comps8, &rems8, "all 255 compressed heads x all 16320 valid remainders heads");
+    let l4 = if q { letters_at(4) } else { all_pairs(4) };
+    let comps8s: Vec<Vec<u8>> = vec![vec![], vec![0x00], vec![0xa7], vec![0x3c, 0xff]];
+    c8_16_4::single_step_sweep(report, total, &heads8, (16u16..4096).collect(), &l4, &comps8s, &rems8, "all 255 compressed heads x all 4080 valid remainders heads");
+    let l8: Vec<Letter> = if q { letters_at(8) } else { all_pairs(8) };
+    c8_16_8::single_step_sweep(report, total, &[1u8, 0x80, 0xff], (1u16..256).collect(), &l8, &comps8s, &rems8, "PRECISION = Word bits: all 255 valid remainders heads");
+    let l2 = all_pairs(2);
+    let w = if q { 24 } else { 2000 };
+    c8_32_2::single_step_sweep(report, total, &heads8, boundary_heads(1 << 22, 1 << 30, 22, &l2, w).into_iter().map(|x| x as u32).collect(), &l2, &comps8s, &rems8, "all compressed heads x boundary remainders heads");
+    let l8b = letters_at(8);
+    c8_32_8::single_step_sweep(report, total, &[1u8, 0x80, 0xff], boundary_heads(1 << 16, 1 << 24, 16, &l8b, w).into_iter().map(|x| x as u32).collect(), &l8b, &comps8s, &rems8, "boundary remainders heads");
+    let l3 = all_pairs(3);
+    c8_64_3::single_step_sweep(report, total, &heads8, boundary_heads(1 << 53, 1 << 61, 53, &l3, if q { 4 } else { 200 }).into_iter().map(|x| x as u64).collect(), &l3, &comps8s, &rems8, "all compressed heads x boundary remainders heads");
+    let heads16: Vec<u16> = { let mut v: Vec<u16> = vec![]; for k in 0..16 { for d in 0..3u32 { let b = 1u32 << k; v.push((b + d).min(0xffff) as u16); v.push((b.saturating_sub(d)).max(1) as u16); } } v.extend([0xffff, 0xfffe, 0x5a5a]); v.sort(); v.dedup(); v };
+    let comps16: Vec<Vec<u16>> = vec![vec![], vec![0], vec![0xa7c3], vec![0x3c3c, 0xffff]];
+    let rems16: Vec<Vec<u16>> = vec![vec![], vec![0x5a5a], vec![0x11, 0xffff]];
+    let l12 = letters_at(12);
+    c16_32_12::single_step_sweep(report, total, &heads16, boundary_heads(1 << 4, 1 << 20, 4, &l12, if q { 64 } else { 1 << 19 }).into_iter().map(|x| x as u32).collect(), &l12, &comps16, &rems16, "boundary compressed heads x boundary (thorough: all) remainders heads");
+    let l16 = letters_at(16);
+    c16_32_16::single_step_sweep(report, total, &[1u16, 0x8000, 0xffff], (1u32..65536).step_by(if q { 7 } else { 1 }).collect(), &l16, &comps16, &rems16, "PRECISION = Word bits: remainders heads 1..65536");
+    let heads32: Vec<u32> = { let mut v: Vec<u32> = vec![]; for k in 0..32 { for d in 0..2u64 { let b = 1u64 << k; v.push((b + d).min(0xffff_ffff) as u32); v.push((b.saturating_sub(d)).max(1) as u32); } } v.extend([0xffff_ffff, 0x5a5a_5a5a]); v.sort(); v.dedup(); v };
+    let comps32: Vec<Vec<u32>> = vec![vec![], vec![0], vec![0xa7c3_1234], vec![0x3c3c, 0xffff_ffff]];
+    let rems32: Vec<Vec<u32>> = vec![vec![], vec![0x5a5a_5a5a], vec![0x11, 0xffff_ffff]];
+    let l24 = letters_at(24);
+    c32_64_24::single_step_sweep(report, total, &heads32, boundary_heads(1 << 8, 1 << 40, 8, &l24, if q { 16 } else { 2000 }).into_iter().map(|x| x as u64).collect(), &l24, &comps32, &rems32, "boundary compressed heads x boundary remainders heads");
 }
 
 pub fn run_c14(report: &Report) {
